@@ -189,6 +189,7 @@ pub fn run(args: &Args) -> Report {
                 let ctx = Ctx { rep: &rep, pats, kind, ci };
                 // (1) the prefilter's own contract, every span of every short haystack
                 for (cfg, b) in built.iter().take(if args.get("mode", "def") == "def" { 1 } else { 0 }) {
+                    // (mode api: only the API-level comparison below, for properties other than C05)
                     with_low(b, &mut |a| {
                         for h in &hays {
                             for s in 0..=h.len() {
